@@ -6,7 +6,7 @@ of length <=3 over contractions of different N and cost x 3 entry points.
 Concurrent (E4, mc/sched.py): real threads under a baton scheduler; ALL
 interleavings at line granularity of the shared-state code (reusable.py,
 presets.py, DiskDict, HyperOptimizer.search/tree) up to a preemption bound, for
-8 harnesses (2 threads x 1-2 queries, 3 threads x 1 query; distinct and equal
+17 harnesses (2 threads x 1-2 queries, 3 threads x 1 query; distinct and equal
 queries; memory and disk caches).
 Oracle: every returned tree/path is of the contraction that query asked."""
 
@@ -28,7 +28,7 @@ TECHNIQUE = (
     "schedule is an execution of the implementation"
 )
 LEVEL_TEXT = (
-    "Concurrent: for each of 8 harnesses over one shared optimizer object "
+    "Concurrent: for each of 17 harnesses over one shared optimizer object "
     "(ReusableHyperOptimizer in memory / on disk, ReusableRandomGreedy"
     "Optimizer, AutoOptimizer with and without cache) every schedule with "
     "<=2 preemptions (<=3 thorough) at line granularity of the shared-state "
@@ -36,7 +36,7 @@ LEVEL_TEXT = (
     "and the cache must afterwards answer every query correctly. "
     "Sequential: all query sequences of length <=3 over three contractions "
     "of different size through search / __call__ / array_contract_tree for "
-    "11 optimizer objects and presets. A failing schedule is replayed and "
+    "15 optimizer objects and presets. A failing schedule is replayed and "
     "must reproduce."
 )
 LEVEL_NOTE = (
